@@ -73,6 +73,7 @@ struct HarnessExcRuntime : std::runtime_error, HarnessExc
 static thread_local long g_stat_throws[3] = {0, 0, 0};
 static thread_local long g_stat_unwind_emits = 0;
 static thread_local long g_stat_operand_owned = 0;
+static thread_local long g_stat_insert = 0;
 [[noreturn]] inline void throw_harness_exc(long salt)
 {
   ++g_stat_throws[salt % 3];
@@ -574,6 +575,16 @@ struct VoidAcc
       }
     }
   }
+};
+
+// the protected members signal_base::insert(iterator, slot) and impl(), reached the way a class derived from a signal
+// reaches them (pointers to members formed inside a derived class apply to every signal_base)
+struct SigAccess : public sigc::signal_base
+{
+  using It = sigc::signal_base::iterator_type;
+  static auto insert_copy() { return static_cast<It (sigc::signal_base::*)(It, const sigc::slot_base&)>(&SigAccess::insert); }
+  static auto insert_move() { return static_cast<It (sigc::signal_base::*)(It, sigc::slot_base&&)>(&SigAccess::insert); }
+  static auto get_impl() { return static_cast<std::shared_ptr<sigc::internal::signal_impl> (sigc::signal_base::*)() const>(&SigAccess::impl); }
 };
 
 using SlotI = sigc::slot<int(int)>;
@@ -1414,6 +1425,17 @@ struct Interp
         using Sig = std::remove_reference_t<decltype(sig)>;
         using Slot = typename Sig::slot_type;
         Slot& sl = *reinterpret_cast<Slot*>(s->isVoid ? static_cast<void*>(s->sv) : static_cast<void*>(s->si));
+        // variation without a model counterpart: every third connect of a slot variable goes through the protected
+        // signal_base::insert(position, slot) at begin()/end(), which is what connect_first()/connect() are
+        if ((k + idx(w[3])) % 3 == 0)
+        {
+          ++g_stat_insert;
+          sigc::signal_base& sb = sig;
+          auto impl = (sb.*SigAccess::get_impl())();
+          auto pos = first ? impl->slots_.begin() : impl->slots_.end();
+          auto it = mv ? (sb.*SigAccess::insert_move())(pos, std::move(sl)) : (sb.*SigAccess::insert_copy())(pos, sl);
+          return sigc::connection(*it);
+        }
         if (mv)
           return first ? sig.connect_first(std::move(sl)) : sig.connect(std::move(sl));
         return first ? sig.connect_first(sl) : sig.connect(sl);
@@ -2162,7 +2184,8 @@ int main(int argc, char** argv)
     }
     std::cerr << "#harness-stats throws_plain=" << g_stat_throws[0] << " throws_bad_alloc=" << g_stat_throws[1]
               << " throws_runtime_error=" << g_stat_throws[2] << " emissions_during_unwinding=" << g_stat_unwind_emits
-              << " operands_owned_by_a_functor=" << g_stat_operand_owned << "\n";
+              << " operands_owned_by_a_functor=" << g_stat_operand_owned
+              << " connects_through_protected_insert=" << g_stat_insert << "\n";
     return 0;
   }
   // C19: every program in its own thread, started behind a barrier, disjoint object graphs
